@@ -445,6 +445,10 @@ func checkC07(c *runCtx) {
 		}
 		vtSearch(c, p, vtSpec{Name: fmt.Sprintf("passive ICE-TCP candidate (TCPMux), framed data both ways, all sequences of length <= %d", depth), Model: "tcpdata",
 			Cfg: gatherCfg{Ifaces: gIfacesBasic, NetTypes: []string{"tcp4"}, CandTypes: []string{"host"}, TCPMux: "10.0.0.1:7001", Depth: depth}, Deadline: dl})
+		// the same with a UDP host candidate next to the mux: datagrams over UDP from the TCP peer's IP:port (known, later
+		// selected, on TCP only) must not reach the reader at any point of the session
+		vtSearch(c, p, vtSpec{Name: fmt.Sprintf("passive ICE-TCP candidate next to a UDP host candidate, UDP datagrams from the TCP peer's address, all sequences of length <= %d", depth-1), Model: "tcpdata",
+			Cfg: gatherCfg{Ifaces: gIfacesBasic, NetTypes: []string{"udp4", "tcp4"}, CandTypes: []string{"host"}, TCPMux: "10.0.0.1:7001", Depth: depth - 1}, Deadline: dl})
 	}
 }
 
@@ -468,6 +472,7 @@ type tcpDataModel struct {
 	seq      int
 	answered int
 	reqs     [][]byte // Binding requests of the agent that the peer has not answered yet
+	strangers int
 }
 
 func init() {
@@ -517,8 +522,27 @@ func (m *tcpDataModel) Enabled() []string {
 		evs = append(evs, "write:"+k)
 	}
 	evs = append(evs, "write:stun")
+	if m.udpSock() != nil {
+		// the peer's IP:port is a known remote (and, once selected, the selected pair's remote) on TCP only
+		evs = append(evs, "udpstranger")
+	}
 
 	return evs
+}
+
+// udpSock: the agent's own UDP host socket, when the configuration has one next to the TCP mux.
+func (m *tcpDataModel) udpSock() *vsock {
+	for _, lc := range m.localCands() {
+		if lc.NetworkType() == NetworkTypeUDP4 {
+			if h, ok := lc.(*CandidateHost); ok {
+				if gs, ok := h.conn.(*gSock); ok {
+					return gs.vsock
+				}
+			}
+		}
+	}
+
+	return nil
 }
 
 func (m *tcpDataModel) request(uc bool) []byte {
@@ -634,6 +658,10 @@ func (m *tcpDataModel) Apply(ev string) {
 			m.expect = append(m.expect, p2)
 			write(append(append([]byte{}, fr...), c15frame(p2)...))
 		}
+	case "udpstranger":
+		// same IP:port as the TCP peer, other transport: nobody signalled or authenticated it over UDP
+		m.strangers++
+		m.inject(m.udpSock(), "192.0.2.9:40001", m.payload("20"))
 	case "write":
 		var p []byte
 		if f[1] == "stun" {
